@@ -21,6 +21,7 @@ WEAK = {  # switch -> properties one of which TLC must refute
     "NoReloadOnRestart": ("SizeExact", "SurvivesRestart"),
     "PendingSkipsExpiry": ("BlockCheck",),
     "LateAddUnchecked": ("OnceOnly", "AdmitOnlyAdmissible"),
+    "BufferUsesCurrentValSet": ("AdmitOnlyAdmissible", "NoPanic", "BufferFlushed"),
 }
 HARNESS = ["zz_verif_c11_test.go", "zz_verif_c11_gen_test.go"]
 
@@ -84,6 +85,17 @@ def case_runs(c):
                 ops.append({"op": "Check", "ids": [i]} if k == "lca" else {"op": "Add", "id": i})
             for i, k in ids:
                 ops.append({"op": "Add", "id": i} if k == "lca" else {"op": "Check", "ids": [i]})
+            runs.append({"src": "cases", "ctx": "cases", "ops": ops})
+    # conflicting votes reported on time (while their height is being decided) and late (one
+    # and two heights later, when the validator set may already be another one)
+    for q in sorted(c["pairs"]):
+        h = c["pairs"][q]["h"]
+        for at in (h - 1, h, h + 1):
+            if at < c["H0"] or at + 1 > c["N"]:
+                continue
+            ops = [{"op": "Update", "ids": []} for _ in range(at - c["H0"])]
+            ops += [{"op": "Report", "pair": q}, {"op": "Update", "ids": []}, {"op": "Pending", "mb": -1},
+                    {"op": "Restart"}, {"op": "Update", "ids": []}]
             runs.append({"src": "cases", "ctx": "cases", "ops": ops})
     return runs
 
